@@ -109,6 +109,30 @@ def online_at(node) -> int:
     return 0
 
 
+def offline_everywhere(node, repo_mods, depth=0):
+    """online_at(node) == -1, or every call site of the enclosing function in
+    the package is itself provably offline (helper extracted from a guarded
+    arm)."""
+    if online_at(node) == -1:
+        return True
+    if depth >= 2:
+        return False
+    fn = enclosing_function(node)
+    while isinstance(fn, ast.Lambda):
+        fn = enclosing_function(fn)
+    if not isinstance(fn, ast.FunctionDef):
+        return False
+    sites = []
+    for m in repo_mods:
+        for c in ast.walk(m.tree):
+            if isinstance(c, ast.Call) and (dotted(c.func) or "").split(
+                    ".")[-1] == fn.name and enclosing_function(c) is not fn:
+                sites.append(c)
+    if not sites or fn.name in ("vy_print", "execute_vyxal", "vy_eval"):
+        return False
+    return all(offline_everywhere(c, repo_mods, depth + 1) for c in sites)
+
+
 def names_assigned_from(fn, name):
     """value nodes assigned to local `name` inside fn"""
     out = []
@@ -263,6 +287,7 @@ def check(chk, repo, tier):
     gen = Gen(repo)
     pkg = [m for m in repo.package_modules() if not m.endswith(".dictionary")]
 
+    all_mods = [repo.mod(m) for m in pkg]
     # ---- (E) dynamic evaluation sites in python code ---------------------------
     n_sites = 0
     for modname in pkg:
@@ -289,7 +314,7 @@ def check(chk, repo, tier):
                 if not sympy_numeric_guard(n, None):
                     cls = "USERTEXT"
             cons = f"{qual}:{d or n.func.id}({ast.unparse(arg) if arg else ''})"
-            pol = online_at(n)
+            pol = -1 if offline_everywhere(n, all_mods) else online_at(n)
             if cls in ("GENERATED", "NUMERIC", "CONST"):
                 chk.ob("C19.eval-site-classified", cons, True,
                        sample={"site": cons, "class": cls, "line": n.lineno})
@@ -406,7 +431,8 @@ def check(chk, repo, tier):
                        "input() is given a prompt that is written to the "
                        "host's stdout outside the REPL", mod.rel, n.lineno)
                 continue
-            chk.ob("C19.no-host-output-online", cons, online_at(n) == -1,
+            chk.ob("C19.no-host-output-online", cons,
+                   offline_everywhere(n, all_mods),
                    f"`{mod.seg(n)[:60]}` writes to the host's standard output "
                    "and is not dominated by `not ctx.online`", mod.rel,
                    n.lineno, witness="any printing program run online",
